@@ -24,7 +24,7 @@ MIN_NONTRIVIAL = {"quick": 3000, "thorough": 30000}
 REQUIRED_FUNCTIONS = ["error.py:BlackbirdErrorListener.syntaxError", "listener.py:parse"]
 FUNCTIONS = REQUIRED_FUNCTIONS
 REQUIRED_HOOKS = ["syntaxError"]
-REQUIRED_TAGS = ["mut:delete", "mut:substitute", "mut:insert", "mut:swap", "mut:truncate", "soup:tokens", "soup:chars", "via:load", "grammatical", "ungrammatical", "probe:viable-continuation"]
+REQUIRED_TAGS = ["mut:delete", "mut:substitute", "mut:insert", "mut:swap", "mut:truncate", "soup:tokens", "soup:chars", "via:load", "grammatical", "ungrammatical", "probe:viable-continuation", "margin:1", "margin:4"]
 ASSUMPTIONS = ["'sentence of the grammar' and 'first token that makes the text ungrammatical' are decided by bbverif/g4ref.py from src/blackbird.g4 as it is now",
                "files for load() are ASCII (antlr4.FileStream default); loads() is fed arbitrary Unicode"]
 
@@ -118,8 +118,8 @@ def pick(rng, samples, names):
         return rng.choice(STR_SAMPLES)
     if n == "NAME" and rng.random() < 0.3:
         return rng.choice(["foo", "x1", "Sgate", "alpha_2", "e", "j"])
-    if n == "ANY" and rng.random() < 0.5:
-        return rng.choice(["$", "%", "@", ";", "~", "`", "?", "&", "!", "\\", "^", "'"])
+    if n == "ANY" and rng.random() < 0.6:
+        return rng.choice(["$", "%", "@", ";", "~", "`", "?", "&", "!", "\\", "^", "'", "\xa0", "\x0c", "\x0b", "\u2028", "\u3000", "\u200b", "\x1c", "\x85", "\x00", "\u00e9"])
     return samples[n]
 
 
@@ -281,7 +281,7 @@ def run(ctx):
             done += 1
             continue
         if c < 0.2:
-            alpha = g.alphabet() + list("é中π\U0001F600")
+            alpha = g.alphabet() + list("é中π\U0001F600\xa0\x0c\x0b\u2028\u3000\x85")
             text = "".join(rng.choice(alpha) for _ in range(rng.randint(0, 40)))
             if rng.random() < 0.5:
                 text = "name a\nversion 1.0\n" + text
@@ -304,6 +304,13 @@ def run(ctx):
         for (kind, t) in mutants(rng, g, base, toks, samples, 6):
             check_text(ctx, t, tags=[kind], base=base, via_load=rng.random() < 0.1 and t.isascii())
             done += 1
+            if rng.random() < 0.08:
+                # the same text with a uniform left margin of spaces on every line (1-3 and 5 spaces are skipped by the
+                # lexer; exactly four are an indentation token)
+                k_ = rng.choice([1, 2, 3, 5, 4])
+                t2 = "\n".join((" " * k_ + ln) if ln.strip() else ln for ln in t.split("\n"))
+                check_text(ctx, t2, tags=[kind, "margin:%d" % k_], base=base)
+                done += 1
         if rng.random() < 0.25:
             # viable-continuation probes: after a prefix of a sentence, every token type the grammar allows next; the
             # parser must not report an error at that token (it is not the first token that makes the text ungrammatical)
